@@ -40,6 +40,7 @@ class FrameMotion:
         self.amp = np.array(m.get("amp", [0, 0, 0]), dtype=float)
         self.w = float(m.get("w", 0.0))
         self.ph = float(m.get("phase", 0.0))
+        self.from_rest = bool(m.get("from_rest", False))
         ax = np.array(m.get("axis", [0, 0, 1]), dtype=float)
         self.axis = ax / np.linalg.norm(ax)
         self.alpha = float(m.get("alpha", 0.0))
@@ -47,12 +48,18 @@ class FrameMotion:
         self.moving = bool(m) and (np.any(self.amp != 0) or self.alpha != 0)
 
     def _s(self, t):
+        if self.from_rest:
+            return 1.0 - np.cos(self.w * t)  # velocity exactly zero at t = 0
         return np.sin(self.w * t + self.ph) - np.sin(self.ph)
 
     def _s_t(self, t):
+        if self.from_rest:
+            return self.w * np.sin(self.w * t)
         return self.w * np.cos(self.w * t + self.ph)
 
     def _s_tt(self, t):
+        if self.from_rest:
+            return self.w**2 * np.cos(self.w * t)
         return -self.w**2 * np.sin(self.w * t + self.ph)
 
     def r(self, t):
